@@ -280,3 +280,87 @@ pub fn ref_tick(pre: &RefState, cands: &[Cand]) -> RefTick {
     };
     RefTick { order: set, accepted, blockers, merged, post }
 }
+
+/// Reference tick for the runtime path: the programs arrive as intents (scope = event node whose id is
+/// the ingress id, in the root instance `w`). Returns (applied flags in canonical order, post-state).
+pub struct RefRuntimeTick {
+    /// (scope hash, ingress id, applied?) in canonical order
+    pub entries: Vec<([u8; 32], [u8; 32], bool)>,
+    pub post: Result<RefState, String>,
+}
+
+pub fn ref_runtime_tick(pre: &RefState, w: u8, items: &[([u8; 32], Prog)]) -> RefRuntimeTick {
+    let warp = ids::warp(w);
+    let inst = pre.inst.get(&warp.0);
+    struct It {
+        sh: [u8; 32],
+        rid: [u8; 32],
+        id: [u8; 32],
+        prog: Prog,
+        declared: Vec<Access>,
+    }
+    let mut set: Vec<It> = Vec::new();
+    for (id, prog) in items {
+        if prog.rule >= N_RULES || set.iter().any(|x| x.id == *id) {
+            continue;
+        }
+        let scope = NodeId(*id);
+        let rid = rule_id(prog.rule);
+        let prev = |e: &EdgeId| inst.and_then(|i| i.edges.get(&e.0)).map(|(f, _, _)| NodeId(*f));
+        let (declared, _) = declared_accesses(prog, warp, &scope, &prev);
+        set.push(It { sh: scope_hash(&rid, &NodeKey { warp_id: warp, local_id: scope }), rid, id: *id, prog: prog.clone(), declared });
+    }
+    set.sort_by(|a, b| (a.sh, a.rid).cmp(&(b.sh, b.rid)));
+    let mut accepted: Vec<bool> = Vec::new();
+    for (i, c) in set.iter().enumerate() {
+        let blocked = (0..i).any(|j| accepted[j] && accesses_conflict(&set[j].declared, &c.declared));
+        accepted.push(!blocked);
+    }
+    let mut ops: Vec<WarpOp> = Vec::new();
+    let mut panics = false;
+    for (i, c) in set.iter().enumerate() {
+        if !accepted[i] {
+            continue;
+        }
+        if let Some(inst) = inst {
+            let mut local = Vec::new();
+            let scope = NodeId(c.id);
+            if crate::kernel::catch(|| interpret(&c.prog, inst, warp, &scope, &mut |op| local.push(op))).is_err() {
+                panics = true;
+            }
+            ops.extend(local);
+        }
+    }
+    let post = if panics {
+        Err("program panics".to_owned())
+    } else {
+        match ref_merge(ops) {
+            Err(()) => Err("divergent ops share a key".to_owned()),
+            Ok(ops) => {
+                let mut s = pre.clone();
+                match s.apply_ops(&ops) {
+                    Ok(()) => Ok(s),
+                    Err(e) => Err(format!("{e:?}")),
+                }
+            }
+        }
+    };
+    RefRuntimeTick { entries: set.iter().zip(&accepted).map(|(c, a)| (c.sh, c.id, *a)).collect(), post }
+}
+
+/// Restriction of an abstract state to the harness's id universe (drops runtime-materialised event
+/// and kind nodes/edges, which the reference model does not create).
+pub fn universe_only(s: &RefState) -> RefState {
+    let node_ok = |n: &[u8; 32]| matches!(n[8], b'n' | b'p' | b'r') && n[11..].iter().all(|b| *b == 0);
+    let edge_ok = |e: &[u8; 32]| (e[0] == b'e' || e[0] == b'l') && e[3..].iter().all(|b| *b == 0);
+    let mut out = RefState::default();
+    for (w, i) in &s.inst {
+        let mut r = crate::model::refstate::RefInst { root: i.root, parent: i.parent, ..Default::default() };
+        r.nodes = i.nodes.iter().filter(|(n, _)| node_ok(n)).map(|(n, t)| (*n, *t)).collect();
+        r.edges = i.edges.iter().filter(|(e, _)| edge_ok(e)).map(|(e, v)| (*e, *v)).collect();
+        r.node_att = i.node_att.iter().filter(|(n, _)| node_ok(n)).map(|(n, v)| (*n, v.clone())).collect();
+        r.edge_att = i.edge_att.iter().filter(|(e, _)| edge_ok(e)).map(|(e, v)| (*e, v.clone())).collect();
+        out.inst.insert(*w, r);
+    }
+    out
+}
